@@ -288,16 +288,20 @@ def loadPickleAutoref (f : PickleFile) (levels : Bool) : M Roots := fun m =>
 
 /-! ### whole manager: `_dump_manager`, `_load_manager` -/
 
+/-- `u: (level, low, high)` of `_succ` -/
+def nodeEntry (x : Nat × Nd) : PEntry := ⟨x.1, x.2.lvl, some x.2.lo, some x.2.hi⟩
+
+/-- `(level, low, high): u` of `_pred` -/
+def predEntry (x : List Int × Nat) : Option PEntry :=
+  match x.1 with
+  | [i, v, w] => some ⟨x.2, i.toNat, some v, some w⟩
+  | _ => none
+
 def dumpManager (m : Mgr) : ManagerFile :=
-  let nodes := m.tbl.succ.toList.map fun (u, n) => (⟨u, n.lvl, some n.lo, some n.hi⟩ : PEntry)
   { vars := m.tbl.vars.toList
     roots := m.roots
-    pred := ⟨1, m.nvars, none, none⟩ ::
-      (m.pred.toList.filterMap fun (k, u) =>
-        match k with
-        | [i, v, w] => some ⟨u, i.toNat, some v, some w⟩
-        | _ => none)
-    succ := ⟨1, m.nvars, none, none⟩ :: nodes
+    pred := ⟨1, m.nvars, none, none⟩ :: m.pred.toList.filterMap predEntry
+    succ := ⟨1, m.nvars, none, none⟩ :: m.tbl.succ.toList.map nodeEntry
     ref := m.ref.toList
     minFree := m.minFree }
 
